@@ -453,7 +453,7 @@ def rule_r4(prog, res):
             continue
         n += 1
         atoms = guardspec.atoms_at(c, f.node)
-        ok = ('_ == 0', True) in atoms
+        ok = ('cnt == 0', True) in atoms
         where = '%s:%d' % (f.module.relpath, c.lineno)
         res.ob('R4', where, '_FunctionCall.__call__: %s under %s' % (
             unparse(c)[:40], ['%s%s' % ('' if p_ else 'not ', t)
@@ -485,7 +485,7 @@ def rule_r4(prog, res):
             excl = any((not pol) and ("'bare'" in t or 'BARE' in t)
                        for t, pol in atoms) or any(
                 pol and ("'wrapped'" in t or 'WRAPPED' in t or
-                         "not _.endswith('bare')" in t)
+                         ".endswith('bare')" in t and t.startswith('not '))
                 for t, pol in atoms)
             # input messages are always generated (produce), whatever the
             # style: only marks on values that can be the user's class count
